@@ -43,7 +43,7 @@ func verifEdit(path string, f func(b *bbolt.Bucket) error) {
 
 func HarnessC15Open() {
 	path := verifTempPath("c15.updog")
-	damage := verifChoice("damage", 8)
+	damage := verifChoice("damage", 9)
 	needPreload := false
 	reject := true
 	switch damage {
@@ -79,6 +79,8 @@ func HarnessC15Open() {
 		})
 		needPreload = true
 	case 7: // path does not exist
+	case 8: // path is a symbolic link to a file that does not exist
+		verifMakeFile(path, 4)
 	}
 	preload := verifBool("preload")
 	withCache := verifBool("cache")
@@ -93,9 +95,9 @@ func HarnessC15Open() {
 		opts = append(opts, WithPreloadedData())
 	}
 	idx, err := OpenIndex(path, opts...)
-	if damage == 7 {
+	if damage == 7 || damage == 8 {
 		verifAssert(err != nil && idx == nil, "C15: opening a path that does not exist must fail")
-		verifAssert(verifFileKind(path) == 0, "C15: opening a path that does not exist must not create it")
+		verifAssert(verifFileKind(path) == 0 || verifFileKind(path) == 4, "C15: opening a path that does not exist must not create it")
 		verifReach("end")
 		return
 	}
@@ -205,11 +207,14 @@ func HarnessC16Flags() {
 	verifAssert(err != nil, "C16: the exclusive-create opener opened an existing file")
 	verifAssert(verifFileVersion(existing) == before, "C16: the exclusive-create opener changed an existing file")
 	absent := verifTempPath("c16f_absent")
+	if verifBool("dangling-symlink") {
+		verifMakeFile(absent, 4)
+	}
 	f2, err2 := openfile.OpenFile(openfile.Options{FailIfFileDoesntExist: true})(absent, flags, 0644)
 	if f2 != nil {
 		f2.Close()
 	}
 	verifAssert(err2 != nil, "C15: the must-exist opener opened a path that does not exist")
-	verifAssert(verifFileKind(absent) == 0, "C15: the must-exist opener created the file")
+	verifAssert(verifFileKind(absent) == 0 || verifFileKind(absent) == 4, "C15: the must-exist opener created the file")
 	verifReach("end")
 }
